@@ -33,7 +33,7 @@ VARIABLES l,      \* next event
           x,      \* measured datum
           wr,     \* writer of the current text ("text" for a given text)
           y1,     \* <<reader, ok, g>> of the first read of the current text, or <<>>
-          tj,     \* what is required of the readers on the current given text: "agree" | "error" | "total"
+          tj,     \* what is required of the readers on the current given text: <<"agree" | "error" | "total", what is left open>>
           cnt     \* [cases, writes, reads, textreads, rejects]
 vars == <<l, ph, cid, rec, x, wr, y1, tj, cnt>>
 Ev == TraceLog[l]
@@ -49,7 +49,7 @@ TRecipe == /\ IsEvent("Recipe")
            /\ UNCHANGED <<ph, cid, x, wr, y1, tj, cnt>>
 TBegin == /\ IsEvent("Begin")
           /\ IF ph = "idle" THEN TRUE ELSE Reject(cid, "no-end", wr, "")
-          /\ ph' = "open" /\ cid' = Ev.id /\ x' = NoG /\ wr' = "" /\ y1' = <<>> /\ tj' = "total"
+          /\ ph' = "open" /\ cid' = Ev.id /\ x' = NoG /\ wr' = "" /\ y1' = <<>> /\ tj' = <<"total", "">>
           /\ cnt' = Bump("cases", ph # "idle")
           /\ UNCHANGED rec
 TDatum == /\ IsEvent("Datum")
@@ -76,23 +76,27 @@ TWrite == /\ IsEvent("Write")
                 /\ cnt' = Bump("writes", why # "")
           /\ wr' = Ev.w /\ y1' = <<>>
           /\ UNCHANGED <<ph, cid, rec, x, tj>>
-\* the abstract reader met no error but the datum is not finished
-Incomplete(tok) ==
+\* the abstract reader met no error but the datum is not finished: what is open ("" = not incomplete)
+IncompleteWhy(tok) ==
   LET n == Len(tok)
       unterminated == n >= 1 /\ tok[n].t \in {"str", "psym"} /\ ~TokOK(tok[n])
       body == IF unterminated THEN SubSeq(tok, 1, n - 1) ELSE tok
       ps == Run(body)
-  IN /\ \A i \in 1..Len(body) : TokOK(body[i])
-     /\ ps.err = ""
-     /\ (unterminated \/ ps.stk # <<>> \/ ps.pend # <<>>)
+  IN IF ~(\A i \in 1..Len(body) : TokOK(body[i])) \/ ps.err # "" THEN ""
+     ELSE IF unterminated THEN (IF tok[n].t = "str" THEN "open-string" ELSE "open-bar-symbol")
+     ELSE IF ps.pend # <<>> THEN "label-without-datum"
+     ELSE IF ps.stk # <<>> THEN "open-" \o Top(ps).k
+     ELSE ""
+Incomplete(tok) == IncompleteWhy(tok) # ""
 NoOdd(g) == \A i \in 1..Len(g.n) : g.n[i].k # "odd"
 ValidText(tok, t) == LexOK(tok, t) /\ Read(tok).ok /\ NoOdd(Read(tok).g)
 TText == /\ IsEvent("Text")
          /\ (IF ph = "open" /\ Ev.id = cid THEN TRUE ELSE Reject(Ev.id, "event-order", "text", ""))
          /\ wr' = "text" /\ y1' = <<>>
-         /\ tj' = IF Ev.j = "agree" THEN "agree"
-                  ELSE IF Ev.j = "truncated" THEN (IF Incomplete(Ev.tok) THEN "error" ELSE IF ValidText(Ev.tok, Ev.t) THEN "agree" ELSE "total")
-                  ELSE "total"
+         /\ tj' = IF Ev.j = "agree" THEN <<"agree", "">>
+                  ELSE IF Ev.j = "truncated" THEN (IF Incomplete(Ev.tok) THEN <<"error", IncompleteWhy(Ev.tok)>>
+                                                  ELSE IF ValidText(Ev.tok, Ev.t) THEN <<"agree", "">> ELSE <<"total", "">>)
+                  ELSE <<"total", "">>
          /\ cnt' = [cnt EXCEPT !.rejects = @ + (IF ph = "open" /\ Ev.id = cid THEN 0 ELSE 1)]
          /\ UNCHANGED <<ph, cid, rec, x>>
 Agree(a, ok, g) ==        \* a = <<reader, ok, g>> of the other reader on the same text
@@ -107,8 +111,8 @@ TRead == /\ IsEvent("Read")
          /\ LET why ==
                   IF ~(ph = "open" /\ Ev.id = cid /\ Ev.w = wr) THEN "event-order"
                   ELSE IF wr = "text" THEN
-                     (IF tj = "error" THEN (IF Ev.ok # 1 THEN "" ELSE "incomplete-text-accepted")
-                      ELSE IF tj = "agree" /\ y1 # <<>> THEN AgreeText(y1, Ev.ok, Ev.g)
+                     (IF tj[1] = "error" THEN (IF Ev.ok # 1 THEN "" ELSE "incomplete-text-accepted:" \o tj[2])
+                      ELSE IF tj[1] = "agree" /\ y1 # <<>> THEN AgreeText(y1, Ev.ok, Ev.g)
                       ELSE "")
                   ELSE IF Ev.ok # 1 THEN "read-error"
                   ELSE IF ~WellFormed(Ev.g) THEN "read-malformed"
@@ -122,7 +126,7 @@ TRead == /\ IsEvent("Read")
                    ELSE TRUE)
                /\ cnt' = Bump(IF wr = "text" THEN "textreads" ELSE "reads", why # "")
          /\ y1' = <<Ev.r, Ev.ok, Ev.g>>
-         /\ (IF wr = "text" THEN PrintT(<<"C08TEXT", Ev.id, tj, Ev.r, Cls(Ev.ok, Ev.g)>>) ELSE TRUE)
+         /\ (IF wr = "text" THEN PrintT(<<"C08TEXT", Ev.id, tj[1], Ev.r, Cls(Ev.ok, Ev.g)>>) ELSE TRUE)
          /\ UNCHANGED <<ph, cid, rec, x, wr, tj>>
 TEnd == /\ IsEvent("End")
         /\ (IF ph = "open" /\ Ev.id = cid THEN TRUE ELSE Reject(Ev.id, "event-order", "", ""))
@@ -133,7 +137,7 @@ TFin == /\ IsEvent("Fin")
         /\ IF ph = "idle" THEN TRUE ELSE Reject(cid, "no-end", wr, "")
         /\ PrintT(<<"C08SUMMARY", cnt.cases, cnt.writes, cnt.reads, cnt.textreads, cnt.rejects + (IF ph = "idle" THEN 0 ELSE 1)>>)
         /\ ph' = "idle" /\ UNCHANGED <<cid, rec, x, wr, y1, tj, cnt>>
-TraceInit == /\ l = 1 /\ ph = "idle" /\ cid = 0 /\ rec = NoG /\ x = NoG /\ wr = "" /\ y1 = <<>> /\ tj = "total"
+TraceInit == /\ l = 1 /\ ph = "idle" /\ cid = 0 /\ rec = NoG /\ x = NoG /\ wr = "" /\ y1 = <<>> /\ tj = <<"total", "">>
              /\ cnt = [cases |-> 0, writes |-> 0, reads |-> 0, textreads |-> 0, rejects |-> 0]
 TraceNext == TRecipe \/ TBegin \/ TDatum \/ TWrite \/ TText \/ TRead \/ TEnd \/ TInfo \/ TFin
 TraceSpec == TraceInit /\ [][TraceNext]_vars
